@@ -94,7 +94,8 @@ ArrVals ==
      VIdx(<<1, 3>>, << <<"p">>, tQr >>),                      \* x=([1]=p [3]='q r')
      VIdx(<<1, 3, 5>>, << tAbc2, <<>>, tAB >>),               \* x=([1]=abcabc [3]='' [5]='a b')
      VAssoc(<< <<"k">> >>, << tAB >>),                        \* declare -A x=([k]='a b')
-     VAssoc(<< <<"j">>, <<"k">> >>, << <<"w">>, tAbc2 >>) >>  \* declare -A x=([j]=w [k]=abcabc)
+     VAssoc(<< <<"j">>, <<"k">> >>, << <<"w">>, tAbc2 >>),    \* declare -A x=([j]=w [k]=abcabc)
+     VAssoc(<<>>, <<>>) >>                                   \* declare -A x=()
 
 IfsMenu == << Dflt, <<":">>, <<>> >>
 
@@ -351,7 +352,8 @@ AssocSet(v, key, t) ==
 
 \* can ${j:=w} assign?  "ok" with the new value of x, or "err"
 Assign(s, j, t) ==
-  IF j.n # "x" \/ j.sub.k \in {"at", "star"} THEN [ok |-> FALSE, x |-> s.x]
+  \* (bash takes @ and * as ordinary keys when it assigns to an associative array)
+  IF j.n # "x" \/ (j.sub.k \in {"at", "star"} /\ s.x.k # "assoc") THEN [ok |-> FALSE, x |-> s.x]
   ELSE LET v == s.x IN
     CASE v.k \in {"unset", "str"} /\ j.sub.k = "none" -> [ok |-> TRUE, x |-> VStr(t)]
       [] v.k = "unset" /\ j.sub.k = "num" -> IF j.sub.i < 0 THEN [ok |-> FALSE, x |-> v] ELSE [ok |-> TRUE, x |-> IdxSet(VIdx(<<>>, <<>>), j.sub.i, t)]
@@ -360,7 +362,8 @@ Assign(s, j, t) ==
            LET i == IF j.sub.k = "none" THEN 0 ELSE EffIdx(v, j.sub.i) IN
            IF i < 0 THEN [ok |-> FALSE, x |-> v] ELSE [ok |-> TRUE, x |-> IdxSet(v, i, t)]
       [] v.k = "assoc" ->
-           [ok |-> TRUE, x |-> AssocSet(v, IF j.sub.k = "key" THEN j.sub.t ELSE IF j.sub.k = "num" THEN IntText(j.sub.i) ELSE <<"0">>, t)]
+           [ok |-> TRUE, x |-> AssocSet(v, IF j.sub.k = "key" THEN j.sub.t ELSE IF j.sub.k = "num" THEN IntText(j.sub.i)
+                                       ELSE IF j.sub.k = "at" THEN <<"@">> ELSE IF j.sub.k = "star" THEN <<"*">> ELSE <<"0">>, t)]
       [] OTHER -> [ok |-> FALSE, x |-> v]
 
 \* ------------------------------------------------------------------ operator arguments
